@@ -37,6 +37,12 @@ def run(ctx: Ctx) -> None:
     n7 = S.interleaving_sweep(ctx, v, "C07.R7")
     rep.analysed["interleaved_states_explored"] = n7
     rep.floor("C07.R7", n7, 100)
+    rep.rule("C07.R10", "as C08.R5: store_blob returns normally only after the commit marker is published - seeing the blob file of another writer that has "
+                        "not published its metadata yet is not a reason to return")
+    S.store_always_publishes(ctx, v, "C07.R10")
+    rep.rule("C07.R11", "every directory of the store is created by the constructor whatever the state of the other ones (two processes opening a fresh store)")
+    n11 = S.dirs_created_unconditionally(ctx, v, "C07.R11")
+    rep.floor("C07.R11", n11, 2)
     rep.rule("C07.R8", "as C06.R7: the reading methods modify no entry of the store (two readers, or a reader and a writer, never race on a committed entry)")
     n8 = S.readers_read_only(ctx, v, "C07.R8")
     rep.floor("C07.R8", n8, 3)
